@@ -52,7 +52,7 @@ theorem status_roundtrip_counterexample_code :
   rw [Lemmas.Status.code_ge_2p31_malformed true [] ⟨2147483648, [109], []⟩ [] (by decide)] at h1
   cases h1
 
-/-- …and on a message that is not valid UTF-8 when details are attached (finding F19): the
+/-- …and on a message that is not valid UTF-8 when details are attached (finding F25): the
     details are dropped. -/
 theorem status_roundtrip_counterexample_details :
     ¬ (∀ (hs : Bool) (sub : Bytes) (st : Status) (tr : MD), st.code < 2147483648 →
